@@ -196,21 +196,23 @@ undecided_data!(err, 3, c02_b_data_err);
 
 
 // ---- instruction (argument-less matches; productions through the evaluator stub)
+// Values are concrete and sizes symbolic: `InstructionMatchResolution` and `expr::Value` keep their
+// discriminant in a niche of the big integer's sign byte, so a symbolic *value* makes every variant's
+// clone code (message and string copies of symbolic length) part of the formula (memory cap).
 step! { int;
     #[kani::unwind(2)]
     fn c02_b_instr_one_match() {
-        // one match resolving to (v, size s): stored encoding is exactly that; Resolved <=> value unchanged
-        let v: u16 = kani::any();
-        let s: usize = kani::any(); kani::assume(s >= 16 && s <= 24);
-        let prev: u16 = kani::any();
+        // one match resolving to (0x5a, size s): stored encoding is exactly that; Resolved <=> value unchanged
+        let s: usize = kani::any(); kani::assume(s >= 8 && s <= 24);
         let ps: usize = kani::any(); kani::assume(ps <= 24);
+        let same: bool = kani::any();
         let (first, last, sk, opt): (bool, bool, bool, bool) = (kani::any(), kani::any(), kani::any(), kani::any());
-        let (decls, mut defs) = instr_defs(1, prev as i64, ps, sk);
-        pre_int(v as i64, Some(s));
+        let (decls, mut defs) = if same { instr_defs(1, 0x5a, ps, sk) } else { instr_defs(1, 0x33, ps, sk) };
+        pre_int(0x5a, Some(s));
         let o = instr_step(&decls, &mut defs, first, last, opt);
         assert!(o.ok, "resolvable instruction failed");
-        assert!(o.stored == v as i64 && o.stored_size == Some(s), "stored encoding is not the freshly computed one (value and size)");
-        if !o.flag { assert!(o.resolved == (prev == v), "Resolved differs from 'encoding value unchanged'"); }
+        assert!(o.stored == 0x5a && o.stored_size == Some(s), "stored encoding is not the freshly computed one (value and size)");
+        if !o.flag { assert!(o.resolved == same, "Resolved differs from 'encoding value unchanged'"); }
         if o.flag { assert!(sk && first && opt, "resolved flag set although the encoding is not statically known on the first pass"); }
         if !o.resolved && last { assert!(o.errs > 0, "final pass unresolved without a diagnostic"); }
         kani::cover!(o.resolved && !o.flag && ps != s, "same value, different size than before");
@@ -222,22 +224,23 @@ step! { int;
 step! { int;
     #[kani::unwind(2)]
     fn c02_b_instr_two_matches() {
-        // two resolving matches: the unique smallest is stored; equal sizes are an error on the final pass
-        let (v0, v1): (u8, u8) = (kani::any(), kani::any());
+        // two resolving matches (0x11 of size s0, 0x22 of size s1): the unique smallest is stored;
+        // equal sizes are an error on the final pass
         let (s0, s1): (usize, usize) = (kani::any(), kani::any());
         kani::assume(s0 >= 8 && s0 <= 12 && s1 >= 8 && s1 <= 12);
         let last: bool = kani::any();
-        let prev: u8 = kani::any();
-        let (decls, mut defs) = instr_defs(2, prev as i64, 8, false);
-        pre_int(v0 as i64, Some(s0));
-        pre2_int(v1 as i64, Some(s1));
+        let pk: u8 = kani::any(); kani::assume(pk < 3);
+        let (decls, mut defs) = if pk == 0 { instr_defs(2, 0x11, 8, false) } else if pk == 1 { instr_defs(2, 0x22, 8, false) } else { instr_defs(2, 0x33, 8, false) };
+        let prev: i64 = if pk == 0 { 0x11 } else if pk == 1 { 0x22 } else { 0x33 };
+        pre_int(0x11, Some(s0));
+        pre2_int(0x22, Some(s1));
         let o = instr_step(&decls, &mut defs, false, last, true);
         assert!(o.ok);
         if s0 == s1 && last {
             assert!(o.errs > 0 && !o.resolved, "two equally small encodings accepted on the final pass");
         } else {
-            let (wv, ws) = if s1 < s0 { (v1, s1) } else { (v0, s0) };
-            assert!(o.stored == wv as i64 && o.stored_size == Some(ws), "stored encoding is not the smallest candidate");
+            let (wv, ws) = if s1 < s0 { (0x22, s1) } else { (0x11, s0) };
+            assert!(o.stored == wv && o.stored_size == Some(ws), "stored encoding is not the smallest candidate");
             assert!(o.resolved == (prev == wv), "Resolved differs from 'encoding value unchanged'");
         }
         kani::cover!(s1 < s0 && o.resolved, "second, smaller rule selected");
@@ -259,6 +262,21 @@ step! { failed;
         if last { assert!(o.errs > 0, "final pass without a diagnostic"); }
         kani::cover!(last);
         kani::cover!(!last && o.errs == 0, "silent while guessing");
+        std::mem::forget(decls); std::mem::forget(defs);
+    }
+}
+step! { unknown;
+    #[kani::unwind(2)]
+    fn c02_b_instr_unknown_value() {
+        // the only match evaluates to Unknown (possible even on a no-guess pass inside an asm block,
+        // where a label of the block is not known yet): never resolved, never a panic, an error on the final pass
+        let last: bool = kani::any();
+        let (decls, mut defs) = instr_defs(1, 5, 8, false);
+        pre_unknown();
+        let o = instr_step(&decls, &mut defs, false, last, true);
+        assert!(o.ok && !o.resolved, "instruction with an unknown production counted as resolved");
+        if last { assert!(o.errs > 0, "final pass without a diagnostic"); }
+        kani::cover!(last);
         std::mem::forget(decls); std::mem::forget(defs);
     }
 }
